@@ -3,12 +3,15 @@ mpsc_relaxed_fifo.h).
 
 Script thread 0 is the single consumer, every other thread is a producer (exactly one for
 SPSC; producer number = thread - 1 for the relaxed queue).  Values are distinct positive
-integers.  `spare` = nodes on the harness's LIFO free list at start; popped stubs go back on
+integers.  The MPSC consumer mixes `k` = mpsc_fifo_peek into its pops (the other two headers
+have no peek); the driver's peek oracle (Mpsc.peekMonitor) demands that a peek which reported v
+is followed by the consumer's next pop returning v, with every peek in between reporting v
+again.  `spare` = nodes on the harness's LIFO free list at start; popped stubs go back on
 it, so node identities are reused as early as the API contract allows."""
 from specs import sched_env, n_cases
 
 
-def _script(rng, tier, nprod, nxt):
+def _script(rng, tier, nprod, nxt, peek=False):
     maxops = 8 if tier == "quick" else 20
     total = 0
     prods = []
@@ -23,8 +26,20 @@ def _script(rng, tier, nprod, nxt):
     # the consumer pops a bit less / a bit more than what is pushed, so that both "empty"
     # answers during the run and a non-trivial final drain occur
     npop = max(1, min(maxops if tier == "quick" else 60, total + rng.randrange(-3, 4)))
-    cons = ",".join(["o"] * npop)
-    return "|".join([cons] + prods)
+    cons = ["o"] * npop
+    if peek:
+        # mpsc_fifo_peek (consumer side only): a minority of the consumer's ops; often a peek
+        # right before a pop, sometimes several peeks in a row (stability)
+        out = []
+        frac = rng.choice([0.0, 0.15, 0.3, 0.45])
+        for op in cons:
+            while rng.random() < frac and len(out) < 3 * npop:
+                out.append("k")
+            out.append(op)
+        if rng.random() < 0.3:
+            out.append("k")
+        cons = out
+    return "|".join([",".join(cons)] + prods)
 
 
 def gen_mpsc(rng, tier):
@@ -32,7 +47,7 @@ def gen_mpsc(rng, tier):
     for _ in range(n_cases(tier, 500, 6000)):
         nprod = rng.choice([2, 2, 3, 3, 4])
         spare = rng.choice([2, 3]) * nprod if rng.random() < 0.7 else rng.choice([0, 1, 2])
-        cases.append({"args": [spare, _script(rng, tier, nprod, [1])], "env": sched_env(rng)})
+        cases.append({"args": [spare, _script(rng, tier, nprod, [1], peek=True)], "env": sched_env(rng)})
     return cases
 
 
@@ -68,7 +83,7 @@ SPEC = {
         ],
         "assumptions": [
             "client obligations of the headers, rejected by the model's step and never violated by "
-            "the harness: one trypop at a time; SPSC / each MPSCR producer number: one push at a time; "
+            "the harness: one trypop / peek at a time (single consumer); SPSC / each MPSCR producer number: one push at a time; "
             "a node being pushed is owned by the pusher (not in the queue, not in another push, not "
             "still inside the trypop that returns it)",
             "payloads are distinct non-NULL tokens (so that exactly-once and order are observable)",
